@@ -50,8 +50,8 @@ func callTo(addr []byte, value byte, gas uint16) []byte {
 
 func c17Gadgets() []gadget {
 	u1 := sim.W("U1").Addr
-	helper := sim.CreateAddress("U0", 0) // H: the counter contract deployed first by U0
-	reverter := sim.CreateAddress("W", 0) // R: always reverts
+	helper := sim.CreateAddress("U0", 0)     // H: the counter contract deployed first by U0
+	reverter := sim.CreateAddress("W", 0)    // R: always reverts
 	peekRevert := sim.CreateAddress("V3", 0) // B: reads BALANCE(never-seen account), then reverts
 	picky := sim.CreateAddress("V2", 0)      // K: reverts when called without value, accepts value
 	childInit := hx2("6001600c60003960016000f300")
@@ -79,7 +79,9 @@ func c17Gadgets() []gadget {
 		{"call B (BALANCE of a never-seen account, then revert)", fixed(callTo(peekRevert, 0, 0xffff)), false},
 		{"call K value 0 (K reverts)", fixed(callTo(picky, 0, 0xffff)), false},
 		{"call K value 1 (K accepts)", fixed(callTo(picky, 1, 0xffff)), false},
-		{"call self gas 3000", func(int) []byte { return append(append(hx2("6000 6000 6000 6000 6000 30"), 0x61, 0x0b, 0xb8), 0xf1, 0x50) }, false},
+		{"call self gas 3000", func(int) []byte {
+			return append(append(hx2("6000 6000 6000 6000 6000 30"), 0x61, 0x0b, 0xb8), 0xf1, 0x50)
+		}, false},
 		{"create child", fixed(create(0xf0, false)), false},
 		{"create2 child", fixed(create(0xf5, true)), false},
 		{"callvalue->slot2", fixed(hx2("34600255")), false},
@@ -122,14 +124,14 @@ func initCodeFor(runtime []byte) []byte {
 // ---- the EVM hook ----
 
 type evmHook struct {
-	w        *evmref.World
-	chain    *sim.Chain
-	gen      *sim.Genesis
-	pool     *core.GasPool
-	poolH    int64
-	touched  map[string]bool
-	counters map[string]int
-	model    *refmodel.Model
+	w         *evmref.World
+	chain     *sim.Chain
+	gen       *sim.Genesis
+	pool      *core.GasPool
+	poolH     int64
+	touched   map[string]bool
+	counters  map[string]int
+	model     *refmodel.Model
 	destroyed map[string]bool // contracts that existed in the reference world and were removed by SELFDESTRUCT
 	hadCode   map[string]bool
 }
